@@ -31,7 +31,7 @@ checks = {
  "C12": ("exploration", "Scaled geometry so whole files fill and drain within a run; the reclaimer is a simulated thread ticking every simulated millisecond; at every remove_file event the simulator scans the file independently of the engine and every acknowledged entry found must already have been consumed; model no-skip rule for all reads, also after restarts.", "§4 C12", "deterministic simulation: scheduler-controlled reclaimer, independent file scan at remove events"),
  "C13": ("exploration", "2-3 live instances in one process (keys that sanitize differently incl. keys made of disallowed characters only and case-different keys, and/or different data directories; a third opened through WALRUS_DATA_DIR and the *_for_key constructors), reclaim-style streams interleaved by seed; oracle is differential against the same real code: each instance's projected history re-run alone must give identical results; deleted files must hold only consumed entries.", "§4 C13, §15.3", "deterministic simulation: multi-instance run vs solo runs of the same plan"),
  "C16": ("exploration", "The same seeded plan executed once per backend in separate processes under a priority schedule that gives both sides the same logical schedule (io_uring set-up failure injected in 12% of the incarnations, forcing the positional-write fallback); result sequences must be identical.", "§4 C16, §15.3", "deterministic simulation: differential execution fd vs mmap"),
- "C15": ("exploration", "get_topic_entry_count after every operation of C01/C06-style histories; expected value computed literally from the history (successful appends minus entries returned by consuming reads).", "§4 C15", "deterministic simulation: counts vs history-derived value"),
+ "C15": ("exploration", "Two profiles by seed. Sequential (4 of 5 runs): get_topic_entry_count after every operation of C01/C06-style histories. Concurrent (1 of 5): C05's multi-threaded workload under the seeded scheduler with the count of every topic asked at each quiescent point (after the prologue, after the client threads were joined, after each drain). Expected value computed literally from the history (entries of successful appends minus entries returned by consuming reads).", "§4 C15, §16", "deterministic simulation: counts vs history-derived value, sequentially after every operation and at the quiescent points of seeded thread schedules"),
  "C17": ("exploration", "append/mark_clean/mark_dirty/is_clean histories with drop+reopen at any delay; the marker persister thread is a simulated thread whose timing the scheduler decides.", "§4 C17", "deterministic simulation: scheduler-controlled persister thread, last-call-wins model"),
 }
 na = [
